@@ -10,10 +10,9 @@ fn usage() -> ! {
 
 fn main() {
     // no CA bundle parsing per TLS connector (DESIGN §2.2)
-    if std::env::var_os("SSL_CERT_FILE").is_none() {
-        std::env::set_var("SSL_CERT_FILE", "/dev/null");
-        std::env::set_var("SSL_CERT_DIR", "/nonexistent");
-    }
+    // (the environment usually points SSL_CERT_FILE at the system bundle: parsing it costs ~100 ms per connector)
+    std::env::set_var("SSL_CERT_FILE", "/dev/null");
+    std::env::set_var("SSL_CERT_DIR", "/nonexistent");
     if std::env::var_os("VERIF_LIB_STDOUT").is_none() {
         engine::report::silence_library_stdout();
     }
